@@ -7,7 +7,7 @@ use serde_json::json;
 
 use crate::srv::{Ev, MsgPolicy, PolicySpec, Snapshot, comp_id, make_policies};
 use crate::srvx::{SrvSpace, explore};
-use crate::util::{Budget, Report, Tier};
+use crate::util::{Budget, Report, Tier, par_map};
 
 pub fn lit(b: bool) -> Literal {
     if b { Literal::True } else { Literal::False }
@@ -106,7 +106,7 @@ pub fn main(tier: Tier, seed: u64) -> i32 {
     }
     if tier.is_thorough() {
         for leader in 0..3 {
-            for consts in [vec![], vec![1], vec![0, 1, 2]] {
+            for consts in [vec![], vec![1], vec![(leader + 1) % 3, (leader + 2) % 3]] {
                 plan.push((3, leader, consts, vec![true, leader == 0, true]));
             }
         }
@@ -157,15 +157,85 @@ pub fn main(tier: Tier, seed: u64) -> i32 {
         }
         configs.push(json!({"n": n, "leader": leader, "consts_from": consts, "outputs": outs, "states": ex.states, "transitions": ex.transitions, "complete_histories": leaves.len(), "max_depth": ex.max_depth, "cap_hit": ex.capped}));
     }
-    rep.evaluations = histories;
-    rep.distinct_nontrivial = histories;
+    // ---- n = 3 with constants: walks with one postponed event ---------------------------------------
+    // The exhaustive enumeration for n = 3 with constants has 10^4..10^6 states (thorough tier, and
+    // not for constants from all three parties).  Both tiers therefore also run, for every leader and
+    // several constant layouts, the default-order walk, the reverse-preference walk and every walk in
+    // which ONE coordination event is postponed until no other coordination event (or no event at
+    // all) is enabled - e.g. a follower's constants reaching the other follower before the leader's
+    // run request does.
+    let mut wjobs: Vec<(usize, Vec<usize>, Vec<bool>, Option<(Ev, bool)>, bool)> = vec![];
+    let mut wcfgs: Vec<(usize, Vec<usize>, Vec<bool>)> = vec![];
+    for leader in 0..3usize {
+        let f1 = (leader + 1) % 3;
+        let f2 = (leader + 2) % 3;
+        for consts in [vec![f1], vec![f1, f2], vec![leader, f2], vec![0, 1, 2]] {
+            let mut consts = consts;
+            consts.sort();
+            if tier.is_thorough() || leader != 2 || consts.len() == 1 {
+                wcfgs.push((leader, consts, vec![true, true, leader != 2]));
+            }
+        }
+    }
+    let wbases = par_map(&wcfgs, |_, i, (leader, consts, outs)| {
+        let (sp, expected) = spec(3, *leader, consts, outs.clone());
+        let pols = vec![make_policies(&sp, comp_id(seed, 900 + i as u64))];
+        (crate::srv::run_walk(3, 1, pols.clone(), crate::srv::Walk { max_steps: 20_000, ..Default::default() }, MsgPolicy::Eager, crate::exec::mix(seed, 1390 + i as u64)), pols, expected)
+    });
+    for (i, (leader, consts, outs)) in wcfgs.iter().enumerate() {
+        match &wbases[i].0 {
+            Ok(b) => {
+                wjobs.push((i, consts.clone(), outs.clone(), None, false));
+                wjobs.push((i, consts.clone(), outs.clone(), None, true));
+                let mut seen: Vec<Ev> = vec![];
+                for e in b.history.iter().filter(|e| coordination_only(&[], e)) {
+                    if !seen.contains(e) {
+                        seen.push(e.clone());
+                        wjobs.push((i, consts.clone(), outs.clone(), Some((e.clone(), false)), false));
+                        wjobs.push((i, consts.clone(), outs.clone(), Some((e.clone(), true)), false));
+                    }
+                }
+            }
+            Err(e) => rep.machinery(format!("n=3 leader={leader} consts_from={consts:?}: base walk failed: {e}")),
+        }
+    }
+    let wres = par_map(&wjobs, |_, _, (i, _, _, starve, reverse)| {
+        let (base, pols, _) = &wbases[*i];
+        let base = base.as_ref().map_err(|e| e.clone())?;
+        let mut walk = crate::srv::Walk { max_steps: 20_000, prefer: base.history.clone(), ..Default::default() };
+        if *reverse {
+            walk.prefer = base.history.iter().rev().cloned().collect();
+        }
+        if let Some((e, past)) = starve {
+            walk.prefer = vec![];
+            walk.starve = vec![e.clone()];
+            walk.starve_past_msgs = *past;
+        }
+        crate::srv::run_walk(3, 1, pols.clone(), walk, MsgPolicy::Eager, crate::exec::mix(seed, 1390 + *i as u64))
+    });
+    let mut walks = 0u64;
+    for ((i, consts, outs, starve, reverse), r) in wjobs.iter().zip(wres.iter()) {
+        let leader = wcfgs[*i].0;
+        match r {
+            Err(e) => rep.machinery(format!("n=3 walk failed: {e}")),
+            Ok(r) => {
+                walks += 1;
+                if let Err((class, d)) = oracle(&r.snapshot, 3, outs, wbases[*i].2, 1) {
+                    rep.violation(format!("{class}:walk"), format!("n=3 leader={leader} consts_from={consts:?} outputs={outs:?}, {}: {d}", match starve { Some((e, past)) => format!("{e:?} postponed{}", if *past { " past the MPC messages" } else { "" }), None => if *reverse { "reverse preference".to_string() } else { "default order".to_string() } }), json!({"kind":"srv","n":3,"leader":leader,"consts_from":consts,"outputs":outs,"history":r.history}));
+                }
+            }
+        }
+    }
+    rep.set("n3_walks_with_one_postponed_event", json!({"configurations": wcfgs.len(), "walks": walks}));
+    rep.evaluations = histories + walks;
+    rep.distinct_nontrivial = histories + walks;
     rep.set("states", json!(states));
     rep.set("transitions", json!(transitions));
     rep.set("traces_validated_against_impl", json!(states));
     rep.set("configurations", json!(configs));
     rep.set("state_kinds_observed", json!(kinds));
     rep.exhaustive = Some(all_done);
-    rep.rule = "per configuration (n, leader, which parties supply constants, which parties name an output destination): breadth-first enumeration of all event histories over {inject schedule_p, deliver / answer each validate, run and consts RPC, compile completion of p} on the real PolicyState actors (current-thread tokio, paused clock, owned transport); MPC messages are delivered FIFO per pair whenever pending; histories with equal per-process projections are merged (Mazurkiewicz canonical form); states = canonical histories executed, every one of them is an execution of the implementation".into();
+    rep.rule = "per configuration (n, leader, which parties supply constants, which parties name an output destination): breadth-first enumeration of all event histories over {inject schedule_p, deliver / answer each validate, run and consts RPC, compile completion of p} on the real PolicyState actors (current-thread tokio, paused clock, owned transport); MPC messages are delivered FIFO per pair whenever pending; histories with equal per-process projections are merged (Mazurkiewicz canonical form); states = canonical histories executed, every one of them is an execution of the implementation; in addition, for n=3 with constants: default, reverse and every single-postponed-event walk".into();
     rep.assumptions = vec![
         "RPC transport = the crate's own PolicyClient seam; a process creates an actor on the first schedule/validate for an id and answers run/consts/msg for unknown ids with an error, like polytune-http-server".into(),
         "MPC messages are not interleaved exhaustively with coordination events (eager FIFO delivery; C14/C15 add explicit placements)".into(),
